@@ -290,9 +290,12 @@ class DIMSEServiceProvider:
 
             # Keep C-CANCEL requests separate from other messages
             # Only allow up to 10 C-CANCEL requests
-            if isinstance(d_primitive, C_CANCEL) and len(self.cancel_req) < 10:
-                msg_id = cast(int, d_primitive.MessageIDBeingRespondedTo)
-                self.cancel_req[msg_id] = d_primitive
+            if isinstance(d_primitive, C_CANCEL):
+                # A C-CANCEL request is never a service request in its own
+                #   right, so beyond the limit they're discarded
+                if len(self.cancel_req) < 10:
+                    msg_id = cast(int, d_primitive.MessageIDBeingRespondedTo)
+                    self.cancel_req[msg_id] = d_primitive
             elif (
                 isinstance(d_primitive, N_EVENT_REPORT) and d_primitive.is_valid_request
             ):
